@@ -949,7 +949,9 @@ func stageErrCode(err error) string {
 	case strings.Contains(s, "doesn't exist in config"):
 		return `(Some "mutes-error")`
 	}
-	return `(Some "other")`
+	// a wording this harness does not know: an error, reason not classified (Run/C15Run.v err_compat accepts it
+	// against any error of the model, never against success)
+	return `(Some "unclassified")`
 }
 
 func (rn *runner) stage(c *Case) {
